@@ -318,7 +318,9 @@ func c16Run(e *core.Env) {
 	mk := func(dates []string) []jr.Dir {
 		a := c03Alphabet(dates)
 		for _, d := range dates {
-			a = append(a, jr.C(d, accSavings), jr.O(d, "Assets:Later"), jr.T(d, "later", jr.B(accOpening, "Assets:Later", "3", "USD")))
+			// close, late open, and an account that is closed and opened again later
+			a = append(a, jr.C(d, accSavings), jr.O(d, "Assets:Later"), jr.T(d, "later", jr.B(accOpening, "Assets:Later", "3", "USD")),
+				jr.O(d, accSavings), jr.T(d, "savings", jr.B(accOpening, accSavings, "4", "USD")))
 		}
 		return a
 	}
